@@ -7,6 +7,8 @@
 import DuckModel.Sdk.Flow
 import DuckModel.Spec.TreeSimple
 import DuckModel.Lemmas.SimLemmas
+import DuckModel.Lemmas.SimMain
+import DuckModel.Props.C03
 
 namespace Duck
 open Duck.Spec Duck.Generated
@@ -29,8 +31,8 @@ theorem C04_sim_partial (b : Block) (vars : Vars) (fuelT : Nat) (t' : TState)
     (hwf : b.wf = true) (hs : b.simple = true)
     (h : execBlock (program b) fuelT b { vars := vars, sdk := {} } = .normal t') :
     ∃ fuelM rs, interpRun fuelM (program b) vars {} = (rs, .reachedEnd) ∧
-      rs.vars = t'.vars ∧ rs.st.emitted = t'.sdk.emitted ∧ rs.st.handles = t'.sdk.handles := by
-  sorry
+      rs.vars = t'.vars ∧ rs.st.emitted = t'.sdk.emitted ∧ rs.st.handles = t'.sdk.handles :=
+  sim_program b vars fuelT t' hwf hs h
 
 /-- the machine is deterministic in its fuel: once it reached the end, more fuel gives the
     same result — so the machine outcome above is THE outcome of the program -/
@@ -40,7 +42,34 @@ theorem C04_machine_fuel_mono (is : List Instruction) (vars : Vars) (s : Sdk) (f
           { line := 0, polls := 0, vars := vars, st := s } = (rs, e))
     (he : e ≠ .outOfFuel) :
     runLoop (sdkSem (evalInstrsF fuel) is) is (labelTable is) (fun _ _ => false) (fuel + extra)
-          { line := 0, polls := 0, vars := vars, st := s } = (rs, e) := by
-  sorry
+          { line := 0, polls := 0, vars := vars, st := s } = (rs, e) :=
+  C03_fuel_monotone _ is (labelTable is) _ fuel extra _ rs e h he
+
+/-! ### the stages of the proof, as theorems about sub-fragments (all instances of `C04_sim_partial`;
+    the restricting predicates are defined in Lemmas/SimMain.lean) -/
+
+/-- stage B: blocks of straight-line statements -/
+theorem C04_sim_lines (b : Block) (vars : Vars) (fuelT : Nat) (t' : TState)
+    (hwf : b.wf = true) (hs : b.simple = true) (_hl : b.onlyLines = true)
+    (h : execBlock (program b) fuelT b { vars := vars, sdk := {} } = .normal t') :
+    ∃ fuelM rs, interpRun fuelM (program b) vars {} = (rs, .reachedEnd) ∧
+      rs.vars = t'.vars ∧ rs.st.emitted = t'.sdk.emitted ∧ rs.st.handles = t'.sdk.handles :=
+  C04_sim_partial b vars fuelT t' hwf hs h
+
+/-- stage C: if chains (any number of elseif, optional else, nested), no loops -/
+theorem C04_sim_if_partial (b : Block) (vars : Vars) (fuelT : Nat) (t' : TState)
+    (hwf : b.wf = true) (hs : b.simple = true) (_hl : b.noLoop = true)
+    (h : execBlock (program b) fuelT b { vars := vars, sdk := {} } = .normal t') :
+    ∃ fuelM rs, interpRun fuelM (program b) vars {} = (rs, .reachedEnd) ∧
+      rs.vars = t'.vars ∧ rs.st.emitted = t'.sdk.emitted ∧ rs.st.handles = t'.sdk.handles :=
+  C04_sim_partial b vars fuelT t' hwf hs h
+
+/-- stage D: if chains and while loops, no for/in -/
+theorem C04_sim_if_while_partial (b : Block) (vars : Vars) (fuelT : Nat) (t' : TState)
+    (hwf : b.wf = true) (hs : b.simple = true) (_hl : b.noFor = true)
+    (h : execBlock (program b) fuelT b { vars := vars, sdk := {} } = .normal t') :
+    ∃ fuelM rs, interpRun fuelM (program b) vars {} = (rs, .reachedEnd) ∧
+      rs.vars = t'.vars ∧ rs.st.emitted = t'.sdk.emitted ∧ rs.st.handles = t'.sdk.handles :=
+  C04_sim_partial b vars fuelT t' hwf hs h
 
 end Duck
